@@ -49,26 +49,7 @@ def run_one(ck, prog):
         if single:
             cond_maps.append(bb)
     ck.ob("C18.1", "setup|cq-mapping-conditional-on-single-mmap", len(cond_maps) == 1, fn=su["path"], detail=f"mappings made under the SINGLE_MMAP feature test: {len(cond_maps)} (expected exactly the completion ring)")
-    # the slot -> entry index array is initialised for every slot of the ring the kernel actually created (it rounds the
-    # requested size up): the loop storing into sq_array runs over 0..*sq_off.ring_entries, not over the requested count
-    stores = [bb for bb, t in sc.cfg.calls(lambda t: (t.get("callee") or "").endswith("Atomic::<u32>::store")) if sc.cfg.in_cycle(bb)]
-    ck.ob("C18.1", "setup|anchor|index-array-store", len(stores) == 1, fn=su["path"], detail=f"atomic stores inside a loop of set-up: {len(stores)}")
-    for bb in stores:
-        a = sc.args(bb)
-        ranges = [z for z in walk_deep(a[1], sc.prov, limit=200) if z[0] == "agg" and str(z[1]).endswith("ops::range::Range") and len(z[3]) == 2]
-        ok = False
-        why = "no range found for the stored index"
-        for rg in ranges:
-            lo, hi = rg[3]
-            from_kernel = mentions(hi, sc.prov, lambda z: z[0] == "call" and (z[1] or "").endswith("value_at_offset") and len(z[2]) > 1 and
-                                   mentions(z[2][1], sc.prov, lambda w: w[0] == "field" and w[2] == "ring_entries" and mentions(w[1], sc.prov, lambda v: v[0] == "field" and v[2] == "sq_off")))
-            requested = mentions(hi, sc.prov, lambda z: z[0] == "param") and not from_kernel
-            ok = fold(lo) == 0 and from_kernel and not requested
-            why = f"the loop runs over {show(lo)}..{show(hi)}"
-        identity = canon(strip_casts(a[1])) == canon(strip_casts([z for z in walk_deep(a[0], sc.prov, limit=200) if z[0] == "call" and (z[1] or "").endswith("::add")][0][2][1])) if any(z[0] == "call" and (z[1] or "").endswith("::add") for z in walk_deep(a[0], sc.prov, limit=200)) else False
-        ck.ob("C18.1", "setup|index-array-covers-the-kernels-ring", ok, fn=su["path"], site=sc.site(bb),
-              detail=f"{why}; it must cover 0..(ring_entries read from the mapped submission ring): the kernel rounds the requested size up, slots beyond the requested count would keep index 0 (their operations never run, entry 0 runs twice)")
-        ck.ob("C18.1", "setup|index-array-is-identity", identity, fn=su["path"], site=sc.site(bb), detail="slot i must map to entry i (sq_array[i] = i)")
+    check_index_array(ck, prog, "C18.1")
     # ---- drop side ----------------------------------------------------------------------------------------------------------
     unmaps = [(bb, dc.args(bb)) for bb, t in dc.cfg.calls(lambda t: t.get("callee") == MUNMAP)]
     ck.ob("C18.1", "drop|three-munmaps", len(unmaps) == 3, fn=d["path"], detail=f"munmap sites in Drop: {len(unmaps)}")
@@ -194,3 +175,31 @@ def run_one(ck, prog):
             ck.ob("C18.5", f"{nm.split('::')[-1]}|ring-fd-first", len(a) > 1 and mentions(a[1], ctx.prov, lambda z: z[0] == "param" and z[1] == 1), fn=nm, site=ctx.site(bb), detail=f"the first syscall argument must be the ring descriptor parameter, found {show(a[1]) if len(a) > 1 else None}")
             used = {z[1] for x in a[1:] for z in walk_deep(x, ctx.prov) if z[0] == "param"}
             ck.ob("C18.5", f"{nm.split('::')[-1]}|all-parameters-used", used >= set(range(1, fn["argc"] + 1)), fn=nm, site=ctx.site(bb), detail=f"every parameter must reach the system call; parameters used {sorted(used)} of {fn['argc']}")
+
+
+def check_index_array(ck, prog, rule):
+    """the slot -> entry index array (sq_array) is the identity over the ring the kernel created (shared by C17.7 and C18.1)"""
+    su = prog.fns.get("rusl::io_uring::setup_io_uring")
+    if not ck.anchor(rule, "setup_io_uring", su):
+        return
+    sc = prog.ctx(su)
+    # the slot -> entry index array is initialised for every slot of the ring the kernel actually created (it rounds the
+    # requested size up): the loop storing into sq_array runs over 0..*sq_off.ring_entries, not over the requested count
+    stores = [bb for bb, t in sc.cfg.calls(lambda t: (t.get("callee") or "").endswith("Atomic::<u32>::store")) if sc.cfg.in_cycle(bb)]
+    ck.ob(rule, "setup|anchor|index-array-store", len(stores) == 1, fn=su["path"], detail=f"atomic stores inside a loop of set-up: {len(stores)}")
+    for bb in stores:
+        a = sc.args(bb)
+        ranges = [z for z in walk_deep(a[1], sc.prov, limit=200) if z[0] == "agg" and str(z[1]).endswith("ops::range::Range") and len(z[3]) == 2]
+        ok = False
+        why = "no range found for the stored index"
+        for rg in ranges:
+            lo, hi = rg[3]
+            from_kernel = mentions(hi, sc.prov, lambda z: z[0] == "call" and (z[1] or "").endswith("value_at_offset") and len(z[2]) > 1 and
+                                   mentions(z[2][1], sc.prov, lambda w: w[0] == "field" and w[2] == "ring_entries" and mentions(w[1], sc.prov, lambda v: v[0] == "field" and v[2] == "sq_off")))
+            requested = mentions(hi, sc.prov, lambda z: z[0] == "param") and not from_kernel
+            ok = fold(lo) == 0 and from_kernel and not requested
+            why = f"the loop runs over {show(lo)}..{show(hi)}"
+        identity = canon(strip_casts(a[1])) == canon(strip_casts([z for z in walk_deep(a[0], sc.prov, limit=200) if z[0] == "call" and (z[1] or "").endswith("::add")][0][2][1])) if any(z[0] == "call" and (z[1] or "").endswith("::add") for z in walk_deep(a[0], sc.prov, limit=200)) else False
+        ck.ob(rule, "setup|index-array-covers-the-kernels-ring", ok, fn=su["path"], site=sc.site(bb),
+              detail=f"{why}; it must cover 0..(ring_entries read from the mapped submission ring): the kernel rounds the requested size up, slots beyond the requested count would keep index 0 (their operations never run, entry 0 runs twice)")
+        ck.ob(rule, "setup|index-array-is-identity", identity, fn=su["path"], site=sc.site(bb), detail="slot i must map to entry i (sq_array[i] = i)")
